@@ -35,7 +35,10 @@ class PutTrashDir:
             move_file(self.fs, path, paths.backup_copy_path)
             return Right(None)
         except (IOError, OSError) as error:
-            self.fs.remove_file(paths.trashinfo_path)
+            try:
+                self.fs.remove_file(paths.trashinfo_path)
+            except (IOError, OSError):
+                pass  # the failure to trash is reported anyway
             return Left(UnableToMoveFileToTrash(error))
 
 
